@@ -324,6 +324,64 @@ async def _tls_scenario(path: str, seed: int) -> dict[str, Any]:
     }
 
 
+async def _iter_cancel_scenario(k: int, mode: str, buffered: bool) -> list[str]:
+    """The asynchronous client's packet iterator, cancelled from outside (task.cancel() or a cancel scope around the loop) k loop iterations
+    after eight packets arrived in one segment - i.e. while it is handing out packets that are already there, not while it waits."""
+    from easynetwork.clients.async_tcp import AsyncTCPNetworkClient
+    from easynetwork.lowlevel.api_async.backend._asyncio.backend import AsyncIOBackend
+    from easynetwork.protocol import BufferedStreamProtocol, StreamProtocol
+    from easynetwork.serializers.line import StringLineSerializer
+
+    loop = asyncio.get_running_loop()
+    backend = AsyncIOBackend()
+    a, b = harness.loopback_tcp_pair()
+    want = [f"P{i}" for i in range(8)]
+    got: list[str] = []
+    problems: list[str] = []
+    try:
+        client = AsyncTCPNetworkClient(a, (BufferedStreamProtocol if buffered else StreamProtocol)(StringLineSerializer()), backend=backend)
+        await client.wait_connected()
+        scope = backend.open_cancel_scope()
+
+        async def consume() -> None:
+            with scope:
+                async for pkt in client.iter_received_packets(timeout=None):
+                    got.append(pkt)
+
+        task = loop.create_task(consume())
+        await harness.settle()
+        b.sendall("".join(p + "\n" for p in want).encode())
+
+        def fire(j: int) -> None:
+            if j:
+                loop.call_soon(fire, j - 1)
+            elif mode == "task":
+                task.cancel()
+            else:
+                scope.cancel()
+
+        # the segment is in the kernel: the loop sees it at its next poll; the cancellation comes k iterations after this point
+        loop.call_soon(fire, k)
+        await asyncio.wait([task], timeout=5)
+        if not task.done():
+            task.cancel()
+            await asyncio.wait([task], timeout=5)
+        while len(got) < len(want):
+            try:
+                with backend.timeout(5):
+                    got.append(await client.recv_packet())
+            except TimeoutError:
+                problems.append("the rest of the stream never arrives")
+                break
+        if got != want:
+            problems.append(f"delivered {got}, sent {want}")
+        await client.aclose()
+    finally:
+        a.close()
+        b.close()
+    return problems
+
+
 def run(chk: Check) -> None:
     quick = chk.tier == "quick"
     n = 150 if quick else 1500
@@ -353,6 +411,26 @@ def run(chk: Check) -> None:
         chk.distinct.add(t["meta"])
     chk.sample({"layer": rec[0]["meta"], "events": [(e["ev"], e["n"], e["idx"]) for e in rec[0]["events"][:12]]}, cap=6)
     chk.extra["layer_scenarios"] = {"traces": len(rec), "events": res.nevents, "rejected": len(res.rejected)}
+    # the client's packet iterator cancelled from outside while it hands out packets that are already there
+    nit = 0
+    for buffered in (False, True):
+        for mode in ("task", "scope"):
+            for k in range(0, 16 if quick else 40):
+                try:
+                    problems = vloop.run(lambda: _iter_cancel_scenario(k, mode, buffered))
+                except vloop.VirtualDeadlock as exc:
+                    problems = [str(exc)]
+                nit += 1
+                chk.traces += 1
+                chk.distinct.add(("iter_cancel", buffered, mode, k))
+                if problems:
+                    chk.violation(
+                        {"kind": "iterator_cancel", "what": "bytes_lost", "mode": mode},
+                        f"AsyncTCPNetworkClient.iter_received_packets() ({'buffered' if buffered else 'copying'} path) cancelled by "
+                        f"{'task.cancel()' if mode == 'task' else 'a cancel scope around the loop'} {k} loop iteration(s) after 8 packets arrived in one segment: {problems}",
+                        {"kind": "iterator_cancel", "k": k, "mode": mode, "buffered": buffered},
+                    )
+    chk.extra["iterator_cancel_scenarios"] = nit
     # the blocking side of the property: receives that end with TimeoutError in the middle of a frame, followed by further receives
     from . import c03_recv_endpoint
 
